@@ -6,6 +6,7 @@ import (
 	"os"
 	"path/filepath"
 	"reflect"
+	"runtime"
 	"sync"
 	"testing"
 
@@ -897,6 +898,8 @@ type c13EnumCase struct {
 	// H1NTL: the calls that parse H1 carry NoTrailingLiterals (which leaves
 	// search-structure entries in front of the parse position)
 	H1NTL bool `json:"h1ntl,omitempty"`
+	// Procs: GOMAXPROCS while the case runs (0: unchanged)
+	Procs int `json:"procs,omitempty"`
 }
 
 type enumBlock struct {
@@ -940,6 +943,9 @@ func sameEnumBlocks(a, b []enumBlock) bool {
 // checkC13Enum: one parser, used for H1, Reset(nil), used for H2, against a new
 // parser given H2.
 func checkC13Enum(c c13EnumCase) (string, bool, error) {
+	if c.Procs > 0 {
+		defer runtime.GOMAXPROCS(runtime.GOMAXPROCS(c.Procs))
+	}
 	p, err := c.Cfg.LZ().NewParser()
 	if err != nil {
 		return "", false, errConfigRejected
